@@ -159,7 +159,7 @@ theorem groupMsgs_upsert_new (m : Msg) (l : List Msg)
     · have cg' : (a.gid == m.gid) = true := by simpa using cg
       have hid : ¬ a.id = m.id := by
         intro e
-        simp [List.filter_cons, cg, e] at hnew
+        simp [cg, e] at hnew
       have c' : (a.gid == m.gid && a.id == m.id) = false := by simp [hid]
       have hnew' : (t.filter (·.gid == m.gid)).any (·.id == m.id) = false := by
         rw [List.filter_cons, if_pos cg', List.any_cons, Bool.or_eq_false_iff] at hnew
